@@ -19,6 +19,7 @@
   kept as `example`s showing the fixed model handles them.
 -/
 import KavaVerif.Proofs.CdpExample
+import KavaVerif.Proofs.CdpGov
 import KavaVerif.Generated.CdpFacts
 set_option linter.unusedSimpArgs false
 set_option linter.unusedVariables false
@@ -253,6 +254,40 @@ example : blockSelects (sortKey (c2d 3000000000 8 10000000 6)) ⟨60000000000000
 /-- non-vacuity: in `exAtRatio` the scan selects the CDP and the pass succeeds -/
 example : (liquidateBlock exEnv exAtRatio 0 exColl ⟨500000000000000000⟩).isOk = true ∧
     (below exAtRatio.idx 0 (sortKey (normRatio ⟨500000000000000000⟩ exColl.liqRatio))).length = 1 := by
+  decide +kernel
+
+/-! ### the ratio in force; collateral types that are not listed -/
+
+/-- Governance changes the liquidation ratio (and every other parameter) between two blocks while CDPs exist.
+    Every statement above is about ONE step under the environment `E` of that step, so "the liquidation ratio"
+    is the ratio in force when the action happens: after a change to `E'`, a begin block seizes a CDP only if its
+    ratio at the liquidation price is below the NEW ratio (instance of `C05_block_sound_state` at `E'`; a position
+    that a lowered ratio made safe is not seized in the block after the change, one that a raised ratio put below
+    is inside the scan range by `C05_block_complete_bound`).  What needs a statement of its own is a collateral
+    type that is removed from the parameters while CDPs of it exist: neither the block liquidator nor a keeper
+    message can seize them, and no user action on them is accepted, until the type is listed again. -/
+theorem C05_unlisted_type_never_seized {E : Env} {g : Int} {now : Int} {s : St} {ty : Nat}
+    (hW : WF E) (hI : Inv E g s) (hu : isActive E ty = false) :
+    (∀ skip facs s', beginBlock E now skip facs s = .ok s' →
+        ∀ id c, s.cdp id = some c → c.ty = ty → s'.cdp id = some c) ∧
+    (∀ k o, (liquidate E now s k o ty).isOk = false) ∧
+    (∀ o p pd, (draw E now s o ty p pd).isOk = false) ∧
+    (∀ o d c cd, (withdraw E now s o d ty c cd).isOk = false) ∧
+    (∀ o d c cd, (deposit E now s o d ty c cd).isOk = false) ∧
+    (∀ o c cd p pd, (create E now s o ty c cd p pd).isOk = false) := by
+  obtain ⟨h1, h2, h3, h4, -, h6⟩ := inactive_refuses (s := s) hu now
+  refine ⟨?_, h6, h4, h3, h2, h1⟩
+  intro skip facs s' h id c hc hty
+  exact beginBlock_keeps_unlisted hW hI h id c hc (by rw [hty]; exact hu)
+
+/-- non-vacuity: the example position at 150 % with its type removed survives a begin block after a price crash
+    to 0.001 and the keeper is refused; with the type listed under the ratio 2.0 the same position is seized at
+    unchanged prices, and under the original ratio 1.5 it is not -/
+example : isActive exEnvRemoved 0 = false ∧
+    ((apply exEnvRemoved { exAtRatio with price := fun _ => some ⟨1000000000000000⟩ } (.beginBlock 101 false [Dec.one])).cdp 1).isSome = true ∧
+    (liquidate exEnvRemoved 101 { exAtRatio with price := fun _ => some ⟨1000000000000000⟩ } 4 3 0).isOk = false ∧
+    ((apply exEnvRaised exAtRatio (.beginBlock 101 false [Dec.one])).cdp 1).isNone = true ∧
+    ((apply exEnv exAtRatio (.beginBlock 101 false [Dec.one])).cdp 1).isSome = true := by
   decide +kernel
 
 /-! ### a seizure takes the whole position; the debt shares -/
